@@ -203,6 +203,15 @@ theorem rd_only_by_workerReadOk (s : State) (a : Act) (c q : Nat)
 theorem no_double_use (acts : List Act) : (reach acts).fault = none :=
   (reach_inv acts).fault
 
+/-- the last attempt (`retry > 5`) does not consult the pool — nor `t.closed` — and dials: the
+    idle set, every connection and the history are untouched. -/
+theorem last_attempt_dials (s : State) (e : Nat) (pick : Option Nat) (hf : s.fault = none)
+    (hp : (s.caller e).phase = .get) (hr : (s.caller e).retry > 5) :
+    let s' := step s (.getIdle e pick)
+    (s'.caller e).phase = .dialing ∧ (s'.caller e).dial = .dialing ∧ s'.idle = s.idle ∧ s'.all = s.all ∧
+    s'.conn = s.conn ∧ s'.hist = s.hist := by
+  simp [step, stepCore, stepCoreG, hf, hp, hr, State.setCaller]
+
 /-- Assumption A1 is needed: if the idle timer of a freshly dialled connection fires before the
     dial goroutine's `rc.exitIdle()` (possible only when `IdleTimeout` is shorter than the few
     instructions between the two calls) and the caller has given up meanwhile, the dial
@@ -254,11 +263,15 @@ example : spec [.dial 0, .use 0 1, .wr 0 1, .ret 1 .ctx, .rd 0 1, .use 0 2, .wr 
 
 /-- tie (pinned source facts): who calls `releaseConn` (the worker goroutine of
     `exchangeConnCtx` and the dial goroutine, nobody else), nobody else inserts into
-    `idleConns`, `enterIdle` precedes the insertion, the retry condition, the closed check in
+    `idleConns`, `enterIdle` precedes the insertion, the retry condition and the `retry <= 5`
+    guard in front of `getIdleConn` (the last attempt dials), the closed check in
     `exitIdle`, the worker's private copy of the payload, the idle timer's test, both reads of
     `ReadMsgFromTCP` are `io.ReadFull`. -/
 theorem pins :
     Facts.reuse_retryCond = "!isNewConn && retry <= 5 && !ctxIsDone(ctx)" ∧
+    Facts.reuse_poolGuard = "retry <= 5" ∧ Facts.reuse_retryConds = 2 ∧ Facts.reuse_getIdleCalls = 1 ∧
+    Facts.reuse_poolGuardStmt = "if retry <= 5 { c, err = t.getIdleConn() if err != nil { errs = append(errs, err) return nil, joinErr(errs) } }" ∧
+    Facts.reuse_dialWhenNil = "c == nil" ∧
     Facts.reuse_relCallsWorker = 1 ∧ Facts.reuse_relCallsDial = 1 ∧ Facts.reuse_relCallsExchange = 0 ∧
     Facts.reuse_relCallsExchangeConn = 0 ∧ Facts.reuse_relCallsGetIdle = 0 ∧ Facts.reuse_relCallsClose = 0 ∧
     Facts.reuse_idleInsertsExchange = 0 ∧ Facts.reuse_idleInsertsWorker = 0 ∧ Facts.reuse_idleInsertsDial = 0 ∧
